@@ -66,11 +66,22 @@ def _alarm(signum, frame):
     raise RunTimeout()
 
 
-def _worker(mod, seed, tier, indices, out_path, wall_per_run, budget_s, t0):
+def _indices(counter, nruns):
+    """Dynamic work distribution: a run is a pure function of its index, so who executes it is irrelevant."""
+    while True:
+        with counter.get_lock():
+            i = counter.value
+            counter.value += 1
+        if i >= nruns:
+            return
+        yield i
+
+
+def _worker(mod, seed, tier, counter, nruns, out_path, wall_per_run, budget_s, t0):
     faulthandler.enable()
     signal.signal(signal.SIGALRM, _alarm)
     with open(out_path, 'w') as out:
-        for i in indices:
+        for i in _indices(counter, nruns):
             if budget_s is not None and time.time() - t0 > budget_s:
                 out.write(json.dumps({'i': i, 'skipped': True}) + '\n')
                 continue
@@ -96,20 +107,18 @@ def _worker(mod, seed, tier, indices, out_path, wall_per_run, budget_s, t0):
 
 
 def run_batch(mod, seed, tier, nruns, nproc, wall_per_run=120, budget_s=None):
-    """Fork nproc workers after warm-up; worker w executes run indices w, w+nproc, ..."""
+    """Fork nproc workers after warm-up; workers take the next run index from a shared counter"""
     ctx = multiprocessing.get_context('fork')
     tmp = '/dev/shm/verif-batch-%d' % os.getpid()
     os.makedirs(tmp, exist_ok=True)
     procs = []
     t0 = time.time()
-    for w in range(nproc):
-        idx = list(range(w, nruns, nproc))
-        if not idx:
-            continue
+    counter = ctx.Value('i', 0)
+    for w in range(min(nproc, max(1, nruns))):
         path = os.path.join(tmp, 'w%d.jsonl' % w)
-        p = ctx.Process(target=_worker, args=(mod, seed, tier, idx, path, wall_per_run, budget_s, t0))
+        p = ctx.Process(target=_worker, args=(mod, seed, tier, counter, nruns, path, wall_per_run, budget_s, t0))
         p.start()
-        procs.append((p, path, idx))
+        procs.append((p, path, None))
     records = {}
     errors = []
     for p, path, idx in procs:
